@@ -839,8 +839,13 @@ def t_delrebind(rng: random.Random, u: str, hostile: bool = False) -> Unit:
            f"def {u}_f(a: bool, n: int) -> str:", f"    x: {t} = {v}", f"    r = {u}_chk(0)", "    s = str(type(x).__name__)", "    del x", "    if a:",
            f"        x = {v}", f"    r += {u}_chk(n)", "    return s + str(type(x).__name__) + str(r)", "",
            f"def {u}_g(a: bool, n: int) -> str:", "    try:", f"        return {u}_f(a, n)", "    except ValueError as e:", "        return 'VE ' + str(e)",
-           "    except UnboundLocalError:", "        return 'unbound'", ""]
+           "    except UnboundLocalError:", "        return 'unbound'", "",
+           # same live set on both error edges (nothing else owned): the edge blocks are candidates for sharing
+           f"def {u}_none(n: int) -> None:", "    if n > 2:", "        raise ValueError('n=' + str(n))", "",
+           f"def {u}_h(a: bool, n: int, log: list[str]) -> None:", f"    x: {t} = {v}", f"    {u}_none(0)", "    log.append(type(x).__name__)", "    del x",
+           "    if a:", f"        x = {v}", f"    {u}_none(n)", "    log.append(type(x).__name__)", ""]
     calls = [{"setup": [], "call": f"{u}_{fn}({a}, {n})", "post": []} for fn in ("f", "g") for a in ("True", "False") for n in (0, 3)]
+    calls += [{"setup": ["log = ['start']"], "call": f"{u}_h({a}, {n}, log)", "post": ["log"]} for a in ("True", "False") for n in (0, 3)]
     for c in calls:
         c["uninit"] = True
     return {"src": "\n".join(src), "calls": calls, "tags": ["uninit.del-rebind-between-raising-calls"], "kind": "uninit:del-rebind"}
